@@ -68,5 +68,6 @@ Proof.
   destruct (parse_int d2) eqn:E2; [|discriminate].
   destruct (parse_int d3) eqn:E3; [|discriminate].
   intros H; inversion H; subst.
-  repeat split; eapply parse_int_nonneg; eauto.
+  split; [exact (parse_int_nonneg d1 _ H1 E1)|].
+  split; [exact (parse_int_nonneg d2 _ H2 E2)|exact (parse_int_nonneg d3 _ H3 E3)].
 Qed.
